@@ -10,8 +10,10 @@
    (c04_plprint_sprint), which has no effect as the last clause.
 
    [gen_correct_partial_plural] is the same three-sided simulation step as Proofs/MiniJSSim.v sim_step, built from the step
-   of the selected body (gen_correct_partial_stmt on SMsg b) -- the plural is not a constructor of cstmt, so the step is
-   stated for the node and is NOT part of the programs of Model/MiniJSProg.v (not composed into the file theorem). *)
+   of the selected body (gen_correct_partial_stmt on SMsg b), stated for the node over a LIST of cases.  Since wave 5 the
+   plural is also a constructor of cstmt (SMsgPl; the mutual inductions sgen_mono_all / js_exec_all / interp_all /
+   sgen_print_all have its cases), so the step is a case of gen_correct_partial_stmt (gen_correct_partial_plural_stmt) and part
+   of the programs of Model/MiniJSProg.v; the last section ties the two formulations (c04_qof). *)
 From Soy Require Import Model.Bytes Model.Num Model.Values Model.Outcome Model.Ast Model.JsGen Model.MiniJS
   Model.Escape Model.Directives Model.Print Generated.Tables Model.Interp
   Proofs.EscapeProofs Proofs.MiniJSProofs Proofs.MiniJSPrint Proofs.MiniJSStmt Model.MsgId Proofs.MsgIdProofs
@@ -47,15 +49,7 @@ Definition c04_plprint (ind : nat) (jv : jexpr) (jcs : list (Z * jblk)) (jd : jb
   ++ (sp_ind (S ind) ++ [CText t_default] ++ [CText t_nl]) ++ bprint (S (S ind)) jd
   ++ (sp_ind ind ++ [CText t_rbrace] ++ [CText t_nl]).
 
-(* the budget visitMsgNode's loop gets covers every case body *)
-Definition c04_gosum : list node -> nat :=
-  fix go (l : list node) : nat := match l with [] => 0%nat | x :: r => (nmsg_size x + go r)%nat end.
-Lemma c04_nmsg_plural p vn v cases dflt : nmsg_size (NMsgPlural p vn v cases dflt) = (4 + c04_gosum cases + c04_gosum dflt)%nat.
-Proof. reflexivity. Qed.
-Lemma c04_nmsg_case p z bd : nmsg_size (NMsgPluralCase p z bd) = (3 + c04_gosum bd)%nat.
-Proof. reflexivity. Qed.
-Lemma c04_gosum_mnodes b : c04_gosum (mnodes b) = length (mnodes b).
-Proof. induction b as [|s r IH]; [reflexivity|]. cbn [mnodes c04_gosum length]. fold c04_gosum. rewrite IH. destruct s; reflexivity. Qed.
+(* c04_gosum and its equations: Proofs/MiniJSGen.v *)
 Lemma c04_gosum_cases cs zb : In zb cs -> (length (mnodes (snd zb)) < c04_gosum (c04_plcases cs))%nat.
 Proof.
   induction cs as [|x r IH]; [intros []|]. intros [<-|H]; cbn [c04_plcases map c04_gosum]; fold c04_gosum; fold (c04_plcases r); rewrite c04_nmsg_case, c04_gosum_mnodes.
@@ -299,3 +293,57 @@ Proof.
 Qed.
 Lemma c04_plprint_sprint ind jv jcs jd : sprint ind (JSSwitch jv (c04_plk jcs jd)) = c04_plprint_brk ind jv jcs jd.
 Proof. rewrite sprint_switch, c04_plk_kprint. unfold c04_plprint_brk. chunks_eq. Qed.
+
+(* ------------------------------------------------------------------ *)
+(* the plural as a STATEMENT of the subset: the node, the generated blocks, the text and the selected body of the
+   formulation above (lists of cases) are those of the statement SMsgPl pname v (c04_qof cs d); its MiniJS statement is
+   JSPlural -- executed as the JSSwitch above, printed without the "break;" after the default clause, i.e. exactly the
+   emitted text c04_plprint -- so the step above is gen_correct_partial_plural_stmt (Proofs/MiniJSSim.v) and templates
+   with plural messages are programs of the file / registry theorems *)
+Fixpoint c04_qof (cs : list (Z * cblk)) (d : cblk) : cplur :=
+  match cs with [] => QDflt d | zb :: r => QCase (fst zb) (snd zb) (c04_qof r d) end.
+Lemma c04_qof_cnodes d : forall cs, qcnodes (c04_qof cs d) = c04_plcases cs.
+Proof. induction cs as [|zb r IH]; [reflexivity|]. cbn [c04_qof]. rewrite qcnodes_case, IH. reflexivity. Qed.
+Lemma c04_qof_dnodes d : forall cs, qdnodes (c04_qof cs d) = mnodes d.
+Proof. induction cs as [|zb r IH]; [reflexivity|]. cbn [c04_qof]. rewrite qdnodes_case, IH. reflexivity. Qed.
+Lemma c04_qof_node pname v cs d : snode (SMsgPl pname v (c04_qof cs d)) = c04_plural_node pname v cs d.
+Proof. rewrite snode_msgpl, c04_qof_cnodes, c04_qof_dnodes. reflexivity. Qed.
+Lemma c04_qof_gen mode buf sc d jd : forall cs n jcs n1 n2,
+  c04_plgen mode buf sc n cs = (jcs, n1) -> bgen mode buf sc n1 d = (jd, n2) -> qgen mode buf sc n (c04_qof cs d) = (c04_plk jcs jd, n2).
+Proof.
+  induction cs as [|zb r IH]; intros n jcs n1 n2 Eg Ed.
+  - cbn in Eg. inversion Eg; subst. cbn [c04_qof c04_plk fold_right]. rewrite qgen_dflt, Ed. reflexivity.
+  - cbn [c04_plgen] in Eg. destruct (bgen mode buf sc n (snd zb)) as [jb nb] eqn:Eb. destruct (c04_plgen mode buf sc nb r) as [jr nr] eqn:Er. inversion Eg; subst. clear Eg.
+    cbn [c04_qof]. rewrite qgen_case, Eb, (IH nb jr n1 n2 Er Ed). reflexivity.
+Qed.
+Lemma c04_qof_sgen mode buf sc pname v cs d n jcs n1 jd n2 :
+  c04_plgen mode buf sc n cs = (jcs, n1) -> bgen mode buf sc n1 d = (jd, n2) ->
+  sgen mode buf sc n (SMsgPl pname v (c04_qof cs d)) = (JSPlural (cgen sc v) (c04_plk jcs jd), (sc, n2)).
+Proof. intros Eg Ed. rewrite sgen_msgpl, (c04_qof_gen mode buf sc d jd cs n jcs n1 n2 Eg Ed). reflexivity. Qed.
+Lemma c04_qof_out ij mode pt dv cl env i d : forall cs,
+  qout ij mode pt dv cl env i (c04_qof cs d)
+  = if msg_ok (c04_plpick i cs d) then bout ij mode pt dv cl env (c04_plpick i cs d) else None.
+Proof.
+  induction cs as [|zb r IH]; [reflexivity|]. cbn [c04_qof c04_plpick]. rewrite qout_case. destruct (i =? fst zb)%Z; [reflexivity|exact IH].
+Qed.
+(* the statement's meaning: the value of v is an integer and the selected body is rendered as a message *)
+Lemma c04_qof_sout ij mode pt dv cl env pname v cs d i : ceval ij env v = Some (VInt i) ->
+  sout ij mode pt dv cl env (SMsgPl pname v (c04_qof cs d)) = sout ij mode pt dv cl env (SMsg (c04_plpick i cs d)).
+Proof. intro Ev. rewrite sout_msgpl, Ev, c04_qof_out, sout_msg. destruct (msg_ok (c04_plpick i cs d)); reflexivity. Qed.
+Lemma c04_qof_swf lv pname v cs d :
+  swf lv (SMsgPl pname v (c04_qof cs d)) = cwf lv v && (forallb (fun zb => msg_ok (snd zb) && bwf lv (snd zb)) cs && (msg_ok d && bwf lv d)).
+Proof.
+  rewrite swf_msgpl. f_equal. induction cs as [|zb r IH]; [reflexivity|]. cbn [c04_qof forallb]. rewrite qwf_case, IH. rewrite <- !andb_assoc. reflexivity.
+Qed.
+Lemma c04_js_plural_switch jfn je jv jk : js_exec jfn je (JSPlural jv jk) = js_exec jfn je (JSSwitch jv jk).
+Proof. reflexivity. Qed.
+Lemma c04_plk_kprint_nb ind jd : forall jcs,
+  kprint_nb ind (c04_plk jcs jd) = c04_plprint_cases ind jcs ++ (sp_ind ind ++ [CText t_default] ++ [CText t_nl]) ++ bprint (S ind) jd.
+Proof.
+  induction jcs as [|zj r IH]; cbn [c04_plk fold_right c04_plprint_cases].
+  - rewrite kprint_nb_default. chunks_eq.
+  - fold (c04_plk r jd). rewrite kprint_nb_case, IH. cbn [jk_values jprint]. chunks_eq.
+Qed.
+(* the printed form of the statement is the emitted text *)
+Lemma c04_plprint_sprint_plural ind jv jcs jd : sprint ind (JSPlural jv (c04_plk jcs jd)) = c04_plprint ind jv jcs jd.
+Proof. rewrite sprint_plural, c04_plk_kprint_nb. unfold c04_plprint. chunks_eq. Qed.
